@@ -99,6 +99,15 @@ theorem uint_accept (bits : Nat) (raw : Bytes) (hnum : Number raw) (n : Nat) :
     unmarshalUint bits (.number raw) = some n ↔ IntLit raw (n : Int) ∧ (n : Int) < (2 : Int) ^ bits :=
   tokenUint_iff bits raw hnum n
 
+/-- the hypothesis is satisfiable by a non-trivial literal: `1.0e+2` is an RFC number and denotes 100 -/
+example : Number [0x31#8, 0x2e#8, 0x30#8, 0x65#8, 0x2b#8, 0x32#8] ∧
+    unmarshalInt 32 (.number [0x31#8, 0x2e#8, 0x30#8, 0x65#8, 0x2b#8, 0x32#8]) = some 100 := by
+  refine ⟨?_, by decide⟩
+  exact Number.mk [] [0x31#8] [0x2e#8, 0x30#8] [0x65#8, 0x2b#8, 0x32#8] MinusOpt.none
+    (IntPart.nonzero _ [] (by decide) (by intro d hd; cases hd))
+    (FracOpt.some _ [] (by decide) (by intro d hd; cases hd))
+    (ExpOpt.some 0x65#8 [0x2b#8] 0x32#8 [] (Or.inl rfl) SignOpt.plus (by decide) (by intro d hd; cases hd))
+
 theorem int32_accept (raw : Bytes) (hnum : Number raw) (v : Int) :
     unmarshalInt 32 (.number raw) = some v ↔ IntLit raw v ∧ -2147483648 ≤ v ∧ v ≤ 2147483647 := by
   rw [int_accept 32 raw hnum v]; constructor <;> rintro ⟨h1, h2, h3⟩ <;> exact ⟨h1, by omega, by omega⟩
